@@ -2064,7 +2064,10 @@ class PyCdlib:
             if rr_name.count('/') != 0:
                 raise pycdlibexception.PyCdlibInvalidInput('A rock ridge name must be relative')
 
-            return rr_name.encode('utf-8')
+            try:
+                return rr_name.encode('utf-8')
+            except UnicodeEncodeError:
+                raise pycdlibexception.PyCdlibInvalidInput('A rock ridge name must be encodable as UTF-8')
 
         if rr_name:
             raise pycdlibexception.PyCdlibInvalidInput('A rock ridge name can only be specified for a rock-ridge ISO')
